@@ -1271,12 +1271,36 @@ def _i_minmax(which):
     return h
 
 
+def _ty_key(t):
+    from . import ir as _ir
+    return _ir.ty_str(t)
+
+
 def _i_from_into(eng, st, frame, args, finfo, t):
-    # <T as Into<U>>::into -> U::from(t): try to find local From impl
+    """<T as Into<U>>::into(x) = <U as From<T>>::from(x): inline a local From impl if there is one"""
     if finfo is None:
         return NotImplemented
-    targs = finfo.get("impl", finfo).get("args") or finfo.get("args") or []
+    targs = (finfo.get("impl") or {}).get("args") or finfo.get("args") or []
+    if len(targs) < 2:
+        return NotImplemented
+    T, U = targs[0], targs[1]
+    if _ty_key(T) == _ty_key(U):
+        return [(st, args[0])]
+    for c in eng.crates:
+        for b in c.all_bodies:
+            if b.impl_trait in ("std::convert::From", "core::convert::From") and b.impl_self is not None:
+                ta = b.raw.get("impl_trait_args") or []
+                if _ty_key(b.impl_self) == _ty_key(U) and ta and _ty_key(ta[-1]) == _ty_key(T):
+                    if eng.should_inline(b, frame["depth"]) and not eng.recursing(frame, b):
+                        return eng.inline_call(st, frame, b, args)
     return NotImplemented
+
+
+def _i_pow(eng, st, frame, args, finfo, t):
+    a, b = args[0], args[1]
+    if is_concrete_int(a) and is_concrete_int(b) and 0 <= b[1] < 256:
+        return [(st, vint(a[1] ** b[1]))]
+    return [(st, ("app", "pow", (a, b)))]
 
 
 def _i_index(eng, st, frame, args, finfo, t):
@@ -1323,6 +1347,8 @@ DEFAULT_INTRINSICS = {
     "std::result::Result::<T, E>::unwrap": _i_option_unwrap,
     "std::boxed::Box::<T>::new": _i_box_new,
     "std::ops::Index::index": _i_index,
+    "<T as std::convert::Into<U>>::into": _i_from_into,
+    "std::convert::Into::into": _i_from_into,
     "std::ops::IndexMut::index_mut": _i_index,
 }
 
@@ -1336,6 +1362,7 @@ def _p_eq_impl(eng, st, frame, args, finfo, t):
 
 
 PATTERN_INTRINSICS = [
+    (re.compile(r"^(core|std)::num::<impl (usize|u32|u64|i32|i64|u8|u16)>::pow$"), _i_pow),
     (re.compile(r"^<.* as std::clone::Clone>::clone$"), _p_clone),
     (re.compile(r"^std::cmp::impls::<impl std::cmp::PartialEq.*>::eq$"), _p_eq_impl),
     (re.compile(r"^std::cmp::impls::<impl std::cmp::PartialEq.*>::ne$"), _i_partial_eq(True)),
